@@ -39,8 +39,9 @@ CHECKS['C18'] = ('with in_place=False the set path stores only into fresh copies
                  'effect/alias analysis with constant folding of the in_place flag, AST routing checks')
 CHECKS['C19'] = ('necessary bookkeeping of the flush/slice/carry loop only: every column buffered and sized from the same batch; mismatches raise; strict lock-step slicing; the held slice is emitted before being overwritten and has exactly one disposition (yield / padded yield / carry) per tail path; partial batches and padding only when exhausted; carried remainder re-buffered with its sizes; buffers reset after a flush; helpers keep the container kind; operators pass their batch sizes and column counts in the right roles. Row conservation and exact sizes as statements about values are NOT decided',
                  'CFG path enumeration and dominance over rebatched_args, AST table agreement for helpers and call sites')
+CHECKS['C02'] = ('necessary bookkeeping of the per-key/per-slice state update only: the unsliced state is updated once per batch with the unmasked function and independently of slicers; every yielded (slice key, masks) pair gets its own state created on first sight and updated with the function masked by that pair; the default mask builder advances the row index once per row after recording it and masks have one entry per row; masks are applied to the selected inputs; get_result reports every state entry under its own key. Slice membership and per-slice values are NOT decided',
+                 'CFG dominance/must-pass queries and AST dataflow over update_state, the mask builder and get_result; effect analysis of apply_mask')
 NA = {
-    'C02': 'slice membership and per-slice aggregate equality quantify over runtime mask/slice-key values produced by user functions; no structural clause separates a correct from an off-by-one mask builder',
     'C03': 'equality of outputs across threaded/fused/sharded executions is a relation between executions; its only structural ingredients (shared-input locking, merge count) are claimed under C13 and C16',
 }
 
